@@ -135,7 +135,6 @@ package origins
 //@   props C04 C05 C15 C17
 //@   pure
 //@   allocs <= 0
-//@   trustedpost publicsuffix.PublicSuffix is an uninterpreted dependency; IsETLD names its verdict on the host with one trailing dot trimmed
 //@   requires p != nil && (p.HostPattern.Kind == 3 ==> len(p.HostPattern.Value) >= 2)
 //@   ensures result1 == IsETLD(HostOnlyOf(p.HostPattern.Value, p.HostPattern.Kind))
 
